@@ -177,6 +177,23 @@ def key_path_kinds(v, tier, ev, mlar):
             ref_child = child
         if child is None or child != ref_child:
             v.violation(dict(check="cli-keykind", kind="keyderive-parent-" + kind, cmd="keyderive"), dict(rc=rc, stderr=se))
+    # ORDER of several candidate keys: the right one first, last, in the middle, given twice
+    if run(["keygen", "third"])[0]:
+        raise ToolError("mlar keygen failed")
+    for order in (["k", "other"], ["other", "k"], ["other", "third", "k"], ["other", "k", "third"], ["other", "other", "k"], ["k", "k"]):
+        kargs = sum((["-k", x] for x in order), [])
+        for cmd, args, want in (("list", ["list", "-i", ref_arch], None), ("cat", ["cat", "-i", ref_arch, "b.bin"], data["b.bin"]),
+                                ("convert", ["convert", "-i", ref_arch, "-o", "ord.mla", "-l"], None),
+                                ("repair", ["repair", "-i", ref_arch, "-o", "ordr.mla", "-l"], None)):
+            rc, so, se = run(args[:3] + kargs + args[3:])
+            n += 1
+            if rc != 0 or (want is not None and so != want):
+                v.violation(dict(check="cli-keykind", kind="candidate-order", cmd=cmd, order="/".join("right" if x == "k" else "other" for x in order)),
+                            dict(rc=rc, stderr=se, order=order))
+    rc, so, se = run(["cat", "-i", ref_arch, "-k", "other", "-k", "third", "b.bin"])
+    n += 1
+    if rc == 0 or so:
+        v.violation(dict(check="cli-keykind", kind="wrong-keys-accepted", cmd="cat"), dict(rc=rc))
     ev["key_path_kinds"] = dict(runs=n, kinds=["file", "link", "stdin", "fifo"])
     log(f"[C17] keys as file / link / stdin / named pipe: {n} commands")
 
